@@ -288,9 +288,9 @@ func czCheck(c *core.Ctx, cases []czCase) []core.Outcome {
 			o.Buckets = append(o.Buckets, "compile-error")
 			continue
 		}
-		if on.Options&syntax.RightToLeft != 0 {
-			o.Buckets = append(o.Buckets, "right-to-left(no-rewrites)")
-			continue
+		rtl := on.Options&syntax.RightToLeft != 0
+		if rtl {
+			o.Buckets = append(o.Buckets, "right-to-left-pattern")
 		}
 		g0 := gen.FromGoTree(off)
 		if g0.Unsupported != "" {
@@ -320,7 +320,7 @@ func czCheck(c *core.Ctx, cases []czCase) []core.Outcome {
 		}
 		prep[i] = &czPrepared{on: on, off: off, gt: g0, re2: re2, s0: g0.Sexp, s1: g1.Sexp}
 		idx = append(idx, i)
-		send = append(send, fmt.Sprintf("(c05 cert %s %s (disj %s) (uni %s))", g0.Sexp, g1.Sexp, strings.Join(disj, " "), strings.Join(uni, " ")))
+		send = append(send, fmt.Sprintf("(c05 cert %s %s %s (disj %s) (uni %s))", core.SBool(rtl), g0.Sexp, g1.Sexp, strings.Join(disj, " "), strings.Join(uni, " ")))
 		o.Nontrivial = true
 	}
 	res, err := c.RunDriver(send)
@@ -482,10 +482,10 @@ func czSearch(cs *czCase) ([]rune, int, *core.Failure) {
 }
 
 func c05RegisterCert(c *core.Ctx) {
-	z := &czGen{g: &engGen{allowRTL: false, perPat: 8, maxLen: 10, biasRewrite: true}}
+	z := &czGen{g: &engGen{allowRTL: true, perPat: 8, maxLen: 10, biasRewrite: true}}
 	core.RunLeg(c, core.Leg[czCase]{
 		Name: "Cz", Kind: "correspondence(certifier)+search",
-		Rule: "patterns as leg R (two thirds the shapes the rewrites look for), left-to-right. Each pattern is parsed with the rewrites off and on; both trees (gen.FromGoTree) go to Lean's cert (Model/AutoAtomic.lean; Props.C05.certified_find: a certified pair has the same find result from every start), with the oracle bits 'disjoint' and 'uniformly word/non-word' computed exactly from the structure of the engine's sets and Go's unicode tables on the boundary points of the tests. Buckets: trees-equal, certified (every difference is a modelled rewrite and is justified), other-rewrite:<code> (a tree difference cert does not model: prefix factoring, atomic-alternation reordering, loop-body sites …; counted, not an alarm), known-finding-KF2 (a loop over non-word runes still pending after passing \\B), not-certified:<reason>. A not-certified pattern starts a search (the pattern's directed inputs, 1500 random strings mostly over its own characters, every start offset) for an input on which the two compilations differ through the naive scan: found → impl-violation, not found → correspondence-break. non-trivial = the trees differ and were sent to Lean",
+		Rule: "patterns as leg R (two thirds the shapes the rewrites look for; right-to-left patterns included — the engine does not rewrite them, so their trees must come out equal or differ by certified tail rewrites). Each pattern is parsed with the rewrites off and on; both trees (gen.FromGoTree) go to Lean's cert (Model/AutoAtomic.lean; Props.C05.certified_find: a certified pair has the same find result from every start), with the oracle bits 'disjoint' and 'uniformly word/non-word' computed exactly from the structure of the engine's sets and Go's unicode tables on the boundary points of the tests. Buckets: trees-equal, certified (every difference is a modelled rewrite and is justified), other-rewrite:<code> (a tree difference cert does not model: prefix factoring, atomic-alternation reordering, loop-body sites …; counted, not an alarm), known-finding-KF2 (a loop over non-word runes still pending after passing \\B), not-certified:<reason>. A not-certified pattern starts a search (the pattern's directed inputs, 1500 random strings mostly over its own characters, every start offset) for an input on which the two compilations differ through the naive scan: found → impl-violation, not found → correspondence-break. non-trivial = the trees differ and were sent to Lean",
 		N: c.N(1500, 60000), Corpus: czCorpus, Gen: z.next, Check: czCheck, Batch: 500,
 	})
 }
